@@ -1,0 +1,7 @@
+//go:build verif
+
+package jhttp
+
+import "github.com/creachadair/jrpc2"
+
+func verifPoint(site string) { jrpc2.VerifPoint(site) }
